@@ -119,7 +119,7 @@ func errEdgesOf(fn *ssa.Function, w *ssa.Call) [][2]*ssa.BasicBlock {
 }
 
 func runC07(p *core.Prog, r *core.Report) {
-	c07R1(p, r)
+	c07R1(p, r, "C07.R1")
 	c07R2(p, r)
 	c07R3(p, r, "C07.R3")
 	c07R4(p, r)
@@ -306,8 +306,7 @@ func fromCallValue(v, call ssa.Value) bool {
 // fileWriters are the (*os.File) methods that modify a file.
 var fileWriters = map[string]bool{"Write": true, "WriteString": true, "WriteAt": true, "Truncate": true, "ReadFrom": true, "Chmod": true, "Chown": true}
 
-func c07R1(p *core.Prog, r *core.Report) {
-	const rule = "C07.R1"
+func c07R1(p *core.Prog, r *core.Report, rule string) {
 	r.Rule(rule, "who may write and how: in scheme/ocidir only MkdirAll, CreateTemp, writes to a CreateTemp handle, Rename from that temp file's name, and Remove are allowed", 12)
 	nTemp, nRename := 0, 0
 	for _, fn := range pkgFuncs(p, ocidirRel) {
